@@ -63,11 +63,12 @@ def asset_table(op):
                 badlabel=bad_label)
 
 
-def assembly_trace(portfolio, prices, timegrid, op, fix=None):
-    """trace dict for Trace_EAOAssembly from a portfolio and its assembled problem `op`"""
+def assembly_trace(portfolio, prices, timegrid, op, fix=None, global_only=False, T=None, nodal_step_offset=0):
+    """trace dict for Trace_EAOAssembly from a portfolio and its assembled problem `op`
+    (global_only: only the problem's own tables, e.g. for one interval problem of a split set-up with T steps)"""
     names = [a.name for a in portfolio.assets]
     tabs = []
-    for a in portfolio.assets:
+    for a in ([] if global_only else portfolio.assets):
         with quiet():
             aop = a.setup_optim_problem(prices, timegrid)
         tabs.append(asset_table(aop))
@@ -115,9 +116,11 @@ def assembly_trace(portfolio, prices, timegrid, op, fix=None):
         for j in range(AN.shape[0]):
             r = AN.getrow(j)
             step, node = (nr[j] if j < len(nr) else (-1, '?'))
-            nodal.append(dict(node=_str(node), step=int(step), b=fx(bN[j], KA),
+            # (the interval problems of a split set-up record their nodal rows with the step numbers of the ORIGINAL grid)
+            nodal.append(dict(node=_str(node), step=int(step) - nodal_step_offset, b=fx(bN[j], KA),
                               cols=sorted([[int(i), fx(v, KA)] for i, v in zip(r.indices, r.data) if v != 0])))
     g = dict(n=n, nc=len(op.c), nl=len(op.l), nu=len(op.u), ncols=A.shape[1], c=vec(op.c), l=vec(op.l), u=vec(op.u),
              nan=bool(np.isnan(np.asarray(op.c, float)).any() or np.isnan(np.asarray(op.l, float)).any() or np.isnan(np.asarray(op.u, float)).any()),
              maprows=mr, rows=rows, nodal=nodal)
-    return dict(T=int(timegrid.T), assets=tabs, g=g, fix=fix if fix is not None else [], mode='fix' if fix is not None else 'all')
+    return dict(T=int(T if T is not None else timegrid.T), assets=tabs, g=g, fix=fix if fix is not None else [],
+                mode='fix' if fix is not None else ('global' if global_only else 'all'))
